@@ -1,12 +1,167 @@
 (* C01 — PIT export computes the same function as the searched (masked) network.
-   Statements only (proofs: Proofs/Conv.v, Proofs/PitNet.v; models: Model/Conv.v, Model/Masks.v, Model/PitNet.v). *)
+   Statements only (proofs: Proofs/Conv.v, Proofs/PitNet.v; models: Model/Conv.v, Model/Masks.v, Model/PitNet.v).
+   Carrier: ANY type R with 0, 1, +, * satisfying `laws` (0+x=x, 0*x=0, x*0=0, 1*x=x, x*1=x; instances: Z, Qc);
+   weights, biases, BatchNorm coefficients (arbitrary per-channel scale/shift) and inputs are arbitrary elements of R;
+   channel counts, kernel size K, initial dilation, stride, time index are arbitrary; beta/gamma are arbitrary rationals.
+   `true` as first argument of time_mask / kernel_size_opt / dilation_opt = comb anchored at the last tap (repaired code);
+   maskbias = true is the repaired fold_bn forward (bias masked), false the pinned upstream commit. *)
 From Coq Require Import QArith ZArith List Bool Arith.
 Import ListNotations.
-Require Import Plinio.Model.Masks Plinio.Model.Conv Plinio.Proofs.Conv.
+Require Import Plinio.Model.Masks Plinio.Model.Conv Plinio.Model.PitNet Plinio.Proofs.Conv Plinio.Proofs.PitNet.
 Local Open Scope nat_scope.
 
-Theorem C01_masked_sum_filter : forall (m : list bool) (w X : nat -> Z) K, length m = K ->
-  rsum 0%Z Z.add (map (fun j => ((bit 0 1 (nth j m false) * w j) * X j)%Z) (seq 0 K)) = rsum 0%Z Z.add (map (fun j => (w j * X j)%Z) (kept m)).
-Proof. exact (masked_sum_filter Z 0%Z 1%Z Z.add Z.mul Z.add_0_l Z.mul_0_l Z.mul_1_l). Qed.
+(* the masked tap sum is the sum over the kept taps *)
+Theorem C01_masked_sum_filter : forall R r0 r1 radd rmul, @laws R r0 r1 radd rmul -> forall (m : list bool) (w X : nat -> R) K, length m = K ->
+  rsum r0 radd (map (fun j => rmul (rmul (bit r0 r1 (nth j m false)) (w j)) (X j)) (seq 0 K)) = rsum r0 radd (map (fun j => rmul (w j) (X j)) (kept m)).
+Proof. exact L_masked_sum_filter. Qed.
+
+(* time axis: masked K-tap kernel with causal pad (K-1)*d == kernel of the kept taps, K' taps, dilation sp*d, pad (K'-1)*sp*d *)
+Theorem C01_taps_export_eq : forall R r0 r1 radd rmul, @laws R r0 r1 radd rmul -> forall (tm : list bool) (wk : list R) (K K' sp d : nat) (x : Z -> R) (u : Z),
+  length tm = K -> length wk = K -> kept_lags K tm = export_lags K' sp ->
+  taps r0 radd rmul (map (fun p => rmul (bit r0 r1 (fst p)) (snd p)) (combine tm wk)) K (Z.of_nat d) (padl ((K - 1) * d) x) u
+  = taps r0 radd rmul (select tm wk) K' (Z.of_nat (sp * d)) (padl ((K' - 1) * (sp * d)) x) u.
+Proof. exact L_taps_export_eq. Qed.
+
+(* PITConv1d (full convolution), every K >= 1, every real beta/gamma, fold_bn off and on: on every alive output channel and
+   at every time step the masked layer (causal pad (K-1)*d0) equals the exported layer (sliced weights/bias/BN,
+   kernel_size_opt taps, dilation_opt, pad (k'-1)*d'), provided the input vanishes on dead input channels. *)
+Theorem C01_conv1d_export_eq : forall R r0 r1 radd rmul, @laws R r0 r1 radd rmul -> forall fold, conv1d_export_statement r0 r1 radd rmul fold.
+Proof. exact conv1d_export_eq. Qed.
+
+(* depthwise PITConv1d (mask shared with the producer) *)
+Theorem C01_dw_export_eq : forall R r0 r1 radd rmul, @laws R r0 r1 radd rmul -> forall fold, dw_export_statement r0 r1 radd rmul fold.
+Proof. exact dw_export_eq. Qed.
+
+(* stride <> 1: frozen time maskers, kernel / dilation / padding unchanged *)
+Theorem C01_conv1d_export_eq_frozen : forall R r0 r1 radd rmul, @laws R r0 r1 radd rmul ->
+  forall maskbias (w : w3 R) b bn cout cin K d s mout min (x : nat -> Z -> R) co' t,
+  shape3 R w cout cin K -> bias_ok R b cout -> bn_ok R bn cout -> length mout = cout -> length min = cin ->
+  (forall ci, ci < cin -> nth ci min false = false -> forall u, x ci u = r0) -> co' < count_true mout ->
+  pit_conv1d_at r0 r1 radd rmul maskbias false false w b bn cin K (Z.of_nat d) s mout (all_true K) (fun ci => padl ((K - 1) * d) (x ci)) (nth co' (kept mout) 0) t
+  = bn_at r0 radd rmul (slice_bn mout bn) co'
+      (conv1d_at r0 radd rmul false (export_w3 false mout min (all_true K) w) (export_bias mout b) (count_true min) K (Z.of_nat (1 * d)) s
+         (fun i => padl ((K - 1) * (1 * d)) (x (nth i (kept min) 0))) co' t).
+Proof. exact L_conv1d_export_eq_frozen. Qed.
+
+Theorem C01_conv2d_export_eq : forall R r0 r1 radd rmul, @laws R r0 r1 radd rmul ->
+  forall maskbias (w : w4 R) b bn cout cin kh kw d s ph pw mout min (x : nat -> Z -> Z -> R) co' h v,
+  shape4 R w cout cin -> bias_ok R b cout -> bn_ok R bn cout -> length mout = cout -> length min = cin ->
+  (forall ci, ci < cin -> nth ci min false = false -> forall a c, x ci a c = r0) ->
+  co' < count_true mout ->
+  pit_conv2d_at r0 r1 radd rmul maskbias false false w b bn cin kh kw d s ph pw mout x (nth co' (kept mout) 0) h v
+  = bn_at r0 radd rmul (slice_bn mout bn) co'
+      (conv2d_at r0 radd rmul false (export_w4 false mout min w) (export_bias mout b) (count_true min) kh kw d s ph pw
+         (fun i => x (nth i (kept min) 0)) co' h v).
+Proof. exact L_conv2d_export_eq. Qed.
+
+Theorem C01_conv2d_dw_export_eq : forall R r0 r1 radd rmul, @laws R r0 r1 radd rmul ->
+  forall maskbias (w : w4 R) b bn c kh kw d s ph pw mout min (x : nat -> Z -> Z -> R) co' h v,
+  shape4 R w c 1 -> bias_ok R b c -> bn_ok R bn c -> length mout = c -> co' < count_true mout ->
+  pit_conv2d_at r0 r1 radd rmul maskbias false true w b bn c kh kw d s ph pw mout x (nth co' (kept mout) 0) h v
+  = bn_at r0 radd rmul (slice_bn mout bn) co'
+      (conv2d_at r0 radd rmul true (export_w4 true mout min w) (export_bias mout b) (count_true min) kh kw d s ph pw
+         (fun i => x (nth i (kept mout) 0)) co' h v).
+Proof. exact L_conv2d_export_eq_dw. Qed.
+
+Theorem C01_linear_export_eq : forall R r0 r1 radd rmul, @laws R r0 r1 radd rmul ->
+  forall maskbias (w : list (list R)) b bn cout cin mout min (x : nat -> R) co',
+  shape2 R w cout cin -> bias_ok R b cout -> bn_ok R bn cout -> length mout = cout -> length min = cin ->
+  (forall ci, ci < cin -> nth ci min false = false -> x ci = r0) ->
+  co' < count_true mout ->
+  pit_linear_at r0 r1 radd rmul maskbias false w b bn cin mout x (nth co' (kept mout) 0)
+  = bn_at r0 radd rmul (slice_bn mout bn) co'
+      (linear_at r0 radd rmul (export_w2 mout min w) (export_bias mout b) (count_true min) (fun i => x (nth i (kept min) 0)) co').
+Proof. exact L_linear_export_eq. Qed.
+
+(* masked-out channels are exactly zero: after the fused BN (fold_bn off, all three layers) and, in the repaired code,
+   under fold_bn (Conv1d shown; Conv2d/Linear fold_bn variants: PARTIAL — covered by the correspondence run only) *)
+Theorem C01_dead_out_zero : forall R r0 r1 radd rmul, @laws R r0 r1 radd rmul ->
+  (forall maskbias dw w b bn cin K d s mout tm x co t, nth co mout false = false ->
+     pit_conv1d_at r0 r1 radd rmul maskbias false dw w b bn cin K d s mout tm x co t = r0) /\
+  (forall maskbias dw w b bn cin kh kw d s ph pw mout x co h v, nth co mout false = false ->
+     pit_conv2d_at r0 r1 radd rmul maskbias false dw w b bn cin kh kw d s ph pw mout x co h v = r0) /\
+  (forall maskbias w b bn cin mout x co, nth co mout false = false ->
+     pit_linear_at r0 r1 radd rmul maskbias false w b bn cin mout x co = r0) /\
+  (forall dw (w : w3 R) b bn cin K d s mout tm x co t, length mout = length w -> bias_ok R b (length mout) -> nth co mout false = false ->
+     pit_conv1d_at r0 r1 radd rmul true true dw w b bn cin K d s mout tm x co t = r0).
+Proof. exact L_dead_out_zero. Qed.
+
+(* the pinned upstream commit (bias not masked under fold_bn): a pruned channel outputs its bias *)
+Theorem C01_fold_bias_refuted : exists (w : w3 Z) b mout tm (x : nat -> Z -> Z) co t,
+  length mout = length w /\ nth co mout false = false /\
+  pit_conv1d_at 0%Z 1%Z Z.add Z.mul false true false w b None 1 1 1%Z 1%Z mout tm x co t <> 0%Z.
+Proof. exact fold_bias_refuted. Qed.
+
+(* re-created BatchNorm with the sliced coefficients == the fused BatchNorm on the kept channel (any coefficients) *)
+Theorem C01_bn_slice_commutes : forall R (r0 : R) radd rmul (bn : option (list R * list R)) (mout : list bool) co' y,
+  bn_ok R bn (length mout) -> co' < count_true mout ->
+  bn_at r0 radd rmul (slice_bn mout bn) co' y = bn_at r0 radd rmul bn (nth co' (kept mout) 0) y.
+Proof. exact L_bn_slice_commutes. Qed.
+
+Theorem C01_zero_preserving_act : forall l, Forall (fun x => x = 0%Z) l ->
+  Forall (fun x => x = 0%Z) (map relu l) /\ Forall (fun x => x = 0%Z) (map relu6 l).
+Proof. exact zero_preserving_act. Qed.
+Theorem C01_zero_preserving_pool1d : forall k l, Forall (fun x => x = 0%Z) l ->
+  Forall (fun x => x = 0%Z) (maxpool1d k l) /\ Forall (fun x => x = 0%Z) (sumpool1d k l).
+Proof. exact zero_preserving_pool1d. Qed.
+Theorem C01_channelwise_commutes_with_slicing : forall A B (f : A -> B) m l, select m (map f l) = map f (select m l).
+Proof. exact @channelwise_commutes_with_slicing. Qed.
+
+(* network level, by induction over the node list (any depth / width / fan-out), nodes: input, full searchable layer
+   (conv/linear with its causal pad and fused BN), depthwise layer sharing its producer's mask, channel-wise
+   zero-preserving op, flatten (each channel -> mult features), residual add of tensors with equal alive masks, channel concat.
+   Invariant at EVERY node: dead channels of the masked network are zero and the exported tensor is the masked one
+   sliced by the alive mask.  Channel values live in any setoid (S, eqS) with a compatible addition with neutral zeroS.
+   PARTIAL w.r.t. the code: layers enter through their abstract per-channel operators T (the layer theorems above show that the
+   concrete PIT layers have this form and that the exported time-pruned kernels compute the same T); wf demands that masks of
+   shared groups coincide (what build_shared_features_map guarantees) and input masks are the producers' alive masks (C09). *)
+Theorem C01_export_sound : forall (S : Type) (eqS : S -> S -> Prop) (zeroS : S) (addS : S -> S -> S),
+  RelationClasses.Equivalence eqS -> (forall a a' b b', eqS a a' -> eqS b b' -> eqS (addS a b) (addS a' b')) -> (forall s, eqS (addS zeroS s) s) ->
+  forall (n : nat) (net : list (node S)) (x : list S), wf S eqS zeroS n net -> length x = n ->
+  let al := alive_net S net in let P := eval_pit S zeroS addS net x in let E := eval_exp S zeroS addS net x in
+  length al = length net /\ length P = length net /\ length E = length net /\
+  (forall i, i < length net -> Inv S eqS zeroS (nth i al []) (nth i P []) (nth i E [])).
+Proof. exact export_sound. Qed.
+
+(* at a node all of whose channels are alive (output layers are frozen) the two networks give the same tensor *)
+Theorem C01_export_sound_output : forall (S : Type) (eqS : S -> S -> Prop) (zeroS : S) (addS : S -> S -> S),
+  RelationClasses.Equivalence eqS -> (forall a a' b b', eqS a a' -> eqS b b' -> eqS (addS a b) (addS a' b')) -> (forall s, eqS (addS zeroS s) s) ->
+  forall (n : nat) (net : list (node S)) (x : list S), wf S eqS zeroS n net -> length x = n ->
+  forall i, i < length net -> Forall (fun b => b = true) (nth i (alive_net S net) []) ->
+  Forall2 eqS (nth i (eval_exp S zeroS addS net x) []) (nth i (eval_pit S zeroS addS net x) []).
+Proof. exact export_sound_output. Qed.
+
+(* ---- the hypotheses are satisfiable by concrete non-trivial instances *)
+Example C01_laws_instances : laws 0%Z 1%Z Z.add Z.mul /\ laws (Qcanon.Q2Qc 0) (Qcanon.Q2Qc 1) Qcanon.Qcplus Qcanon.Qcmult.
+Proof. split; [exact laws_Z | exact laws_Qc]. Qed.
+
+(* K = 6, beta keeps the last 3 taps, gamma gives comb spacing 2 -> kept taps {3, 5}: k' = 2, dilation 2*d0 = 6, pad 6;
+   2 of 3 output channels alive, 1 of 2 input channels alive; masked layer == exported layer on a concrete input *)
+Example C01_example :
+  let beta := [0; 0; 0; 3; 0; -1]%Q in let gamma := [0; 1; 0]%Q in
+  let w := [[[1;2;3;4;5;6];[1;1;1;1;1;1]]; [[7;8;9;1;2;3];[2;2;2;2;2;2]]; [[-1;0;2;0;-3;1];[3;3;3;3;3;3]]]%Z in
+  let x := [[0;0;0;0;0;0;0;0]; [1;-2;3;0;2;-1;4;1]]%Z in
+  let mout := [false; true; true] in let min := [false; true] in
+  time_mask true 6 beta gamma = [false; false; false; true; false; true] /\
+  run_hp false false true false 6 3 beta gamma mout min = (1, 2, 2, (6, 1, 6, Some 2), [false; false; false; true; false; true]) /\
+  run_export_w3 false mout min (time_mask true 6 beta gamma) w = [[[2;2]]; [[3;3]]]%Z /\
+  select mout (run_pit_conv1d true false false w (Some [1;2;3]%Z) (Some ([2;1;-1], [0;1;5])%Z) 2 6 3 1 mout (time_mask true 6 beta gamma) x)
+  = run_exp_conv1d false w (Some [1;2;3]%Z) (Some ([2;1;-1], [0;1;5])%Z) 2 6 1 mout min (time_mask true 6 beta gamma) x.
+Proof. vm_compute. repeat split. Qed.
 
 Print Assumptions C01_masked_sum_filter.
+Print Assumptions C01_taps_export_eq.
+Print Assumptions C01_conv1d_export_eq.
+Print Assumptions C01_dw_export_eq.
+Print Assumptions C01_conv1d_export_eq_frozen.
+Print Assumptions C01_conv2d_export_eq.
+Print Assumptions C01_conv2d_dw_export_eq.
+Print Assumptions C01_linear_export_eq.
+Print Assumptions C01_dead_out_zero.
+Print Assumptions C01_fold_bias_refuted.
+Print Assumptions C01_bn_slice_commutes.
+Print Assumptions C01_zero_preserving_act.
+Print Assumptions C01_zero_preserving_pool1d.
+Print Assumptions C01_channelwise_commutes_with_slicing.
+Print Assumptions C01_export_sound.
+Print Assumptions C01_export_sound_output.
